@@ -32,21 +32,36 @@ func ruleDownloaderLoad(c *Check, rPair, rOver, rCorrupt string) {
 	nRet, bad, badO, badC := 0, 0, 0, 0
 	nOver, nCorrupt, nBlob := 0, 0, 0
 	// does the OnClose closure release its captured token?
+	// The closure releases a captured variable; that variable is, in the parent,
+	// the local that holds the result of Acquire on the decompress limiter
+	// (identified by what is stored into it, not by its name).
 	closureReleases := func(name string) (bool, string) {
 		cl := c.P.Func(name)
 		if cl == nil {
 			return false, ""
 		}
 		w := Walk(c.P, cl, WalkConfig{})
-		rel := false
+		freeName := ""
 		for i := range w.Paths {
 			for _, e := range callsOf(&w.Paths[i], fnRelease) {
-				if e.Args[0] == "*free:token" {
-					rel = true
+				if strings.HasPrefix(e.Args[0], "*free:") {
+					freeName = strings.TrimPrefix(e.Args[0], "*free:")
 				}
 			}
 		}
-		return rel, closureBinding(fn, cl, "token")
+		if freeName == "" {
+			return false, ""
+		}
+		for _, v := range closureFreeInit(fn, cl, freeName) {
+			if call, ok := v.(*ssa.Call); ok {
+				if callee := call.Common().StaticCallee(); callee != nil && calleeName(callee) == fnAcquire && len(call.Common().Args) == 1 {
+					if strings.HasSuffix(renderAddr(call.Common().Args[0]), ".decompressedSnapshotLimit") {
+						return true, "decompress-token"
+					}
+				}
+			}
+		}
+		return true, "other"
 	}
 	for i := range paths {
 		p := &paths[i]
@@ -75,7 +90,7 @@ func ruleDownloaderLoad(c *Check, rPair, rOver, rCorrupt string) {
 						oc, _ := litField(e.Val, "OnClose")
 						if strings.HasPrefix(oc, "closure:") {
 							rel, bind := closureReleases(strings.TrimPrefix(oc, "closure:"))
-							if rel && bind == "alloc:token" {
+							if rel && bind == "decompress-token" {
 								transferred = true
 							}
 						}
